@@ -191,7 +191,22 @@ fn replay(cfg: &Cfg, case: &Value) -> Vec<Violation> {
         let keep: Vec<Template> = ts.into_iter().filter(|t| t.spec == spec.as_str().unwrap() || (t.fill.is_none() && t.align.is_none() && !t.plus && !t.zero)).collect();
         return check_flags(&keep, &bd(&x), &x, case["p"].as_u64().unwrap() as usize, &mut Tally::default()).into_iter().filter(|v| v.case["spec"] == *spec && v.case["width"] == case["width"]).collect();
     }
-    check(cfg, Kind::from_name(case["kind"].as_str().unwrap()), &bd(&x), &x, case["N"].as_u64().unwrap() as usize, case["via_ref"].as_bool().unwrap()).into_iter().collect()
+    let xb = bd(&x);
+    if let Some(a) = case.get("after") {
+        // a recorded history: the earlier formatting call first
+        let n1 = a["N"].as_u64().unwrap() as usize;
+        let _ = guard(|| format!("{:.*}", n1, xb));
+        let _ = guard(|| format!("{:.*e}", n1, xb));
+    }
+    check(cfg, Kind::from_name(case["kind"].as_str().unwrap()), &xb, &x, case["N"].as_u64().unwrap() as usize, case["via_ref"].as_bool().unwrap())
+        .map(|mut v| {
+            if let (Some(a), Some(o)) = (case.get("after"), v.case.as_object_mut()) {
+                o.insert("after".into(), a.clone());
+            }
+            v
+        })
+        .into_iter()
+        .collect()
 }
 
 fn sweep(run: &Run, cfg: &Cfg, x: &Dec, ns: &[usize], t: &mut Tally) {
@@ -410,6 +425,34 @@ fn main() {
                 // every digit behind the last printed place: 0.00<digits> printed with two (and one) fraction digits
                 let x = Dec { n: big(&digits) * sign, s: (l + h + 2) as i128 };
                 sweep(&run, &cfg, &x, &[2, 1, 3], &mut t);
+            }
+        }
+        t
+    });
+
+    // S3g call histories of length two: {:.N1} / {:.N1e} then {:.N2} ... on the same operand, every ordered pair
+    let hx: Vec<Dec> = vec![Dec::new(12345678, 3), Dec::new(-99995, 2), Dec::new(25, 1), Dec::new(1500001, 6), Dec { n: big(&filler_digits(run.seed(), 40, 40)), s: 17 }, Dec { n: pow10(30) - 1, s: 4 }, Dec::new(-14999, 0), Dec::new(5, 1)];
+    run.bound("S3g_history_operands", hx.len());
+    run.par("S3g call histories of length two", hx.len(), |i| {
+        let mut t = Tally::default();
+        let x = &hx[i];
+        let xb = bd(x);
+        let ns: Vec<usize> = (0..=(x.s.max(0) as usize + 2).min(20)).collect();
+        t.states += 1;
+        for &n1 in ns.iter() {
+            for &n2 in ns.iter() {
+                for k in [Kind::Fixed, Kind::LowerExp] {
+                    t.transitions += 3;
+                    t.nontrivial += 1;
+                    let _ = guard(|| format!("{:.*}", n1, xb));
+                    let _ = guard(|| format!("{:.*e}", n1, xb));
+                    if let Some(mut v) = check(&cfg, k, &xb, x, n2, false) {
+                        if let Some(o) = v.case.as_object_mut() {
+                            o.insert("after".into(), json!({"N": n1}));
+                        }
+                        run.report(v.attr("history", true));
+                    }
+                }
             }
         }
         t
